@@ -67,7 +67,7 @@ def init_state(block, seed, use_init):
 
 
 def run_case(design, simname='Simulation', seed=0, nsteps=6, use_init=True, default_value=0,
-             pre=()):
+             pre=(), mode=None):
     """-> replay-style dict"""
     import pyrtl
     from fam import designs, passes
@@ -80,7 +80,7 @@ def run_case(design, simname='Simulation', seed=0, nsteps=6, use_init=True, defa
     # simulated twice by two simulator objects in a row (a second simulation starts from scratch)
     for rep in range(1 if (regmap or memmap) else 2):
         r = _run_once(block, simname, seed + 17 * rep, nsteps, regmap, memmap, default_value,
-                      own_defaults=not (regmap or memmap))
+                      own_defaults=not (regmap or memmap), mode=mode)
         if r['failed']:
             if rep:
                 r['observed']['second_simulation_of_the_block'] = True
@@ -88,14 +88,23 @@ def run_case(design, simname='Simulation', seed=0, nsteps=6, use_init=True, defa
     return r
 
 
-def _run_once(block, simname, seed, nsteps, regmap, memmap, default_value, own_defaults):
+def _run_once(block, simname, seed, nsteps, regmap, memmap, default_value, own_defaults, mode=None):
+    """mode 'bools': on every other cycle all inputs are 0 / 1 and handed over as Python False / True (a bool is an
+    int); mode 'track_outputs': the tracer follows the Outputs only and every wire of the block is read with
+    inspect() on every cycle (untraced wires are simulated all the same)"""
     import pyrtl
     from spec.cycle import RefSim
     steps = stimuli(block, seed, nsteps)
+    if mode == 'bools':
+        steps = [({k: (t + i) % 2 for i, k in enumerate(sorted(s_, key=str))} if t % 2 == 0 else s_)
+                 for t, s_ in enumerate(steps)]
     ref = RefSim(block, regmap, {m: dict(d) for m, d in memmap.items()}, default_value,
                  mem_default=(0 if simname == 'CompiledSimulation' else None))
     tracer = pyrtl.SimulationTrace(wires_to_track='all' if simname == 'Simulation' else None,
                                    block=block)
+    if mode == 'track_outputs' and block.wirevector_subset(pyrtl.Output):
+        tracer = pyrtl.SimulationTrace(wires_to_track=sorted(block.wirevector_subset(pyrtl.Output), key=lambda w: w.name),
+                                       block=block)
     simcls = getattr(pyrtl, simname)
     kw = dict(tracer=tracer, block=block)
     if not own_defaults:
@@ -105,13 +114,18 @@ def _run_once(block, simname, seed, nsteps, regmap, memmap, default_value, own_d
     sim = simcls(**kw)
     tracked = set(tracer.trace.keys())
     for t, s in enumerate(steps):
-        if simname == 'CompiledSimulation':
-            sim.step(dict(s))
+        if mode == 'bools':
+            sim.step({k: (bool(v) if v in (0, 1) else v) for k, v in s.items()})
         else:
             sim.step(dict(s))
         val = ref.step(s)
         for w, v in val.items():
             if w.name not in tracked:
+                if mode == 'track_outputs' and simname == 'Simulation' and not isinstance(w, pyrtl.Const):
+                    iv = sim.inspect(w)
+                    if iv != v:
+                        return dict(failed=True, observed={'cycle': t, 'untraced wire': w.name, 'inspect': iv},
+                                    expected={'cycle': t, 'wire': w.name, 'value': v})
                 continue
             got = tracer.trace[w.name][t]
             if got != v or not (0 <= got < 2 ** w.bitwidth):
